@@ -33,6 +33,9 @@ pub struct Params {
     /// leave the node's `metrics` binding in a non-initial state
     #[serde(default)]
     pub warm: Vec<QuerySpec>,
+    /// the node runs with adaptive indexing enabled (a different execution path after planning)
+    #[serde(default)]
+    pub adaptive: bool,
 }
 
 const SEC: i64 = 1_000_000_000;
@@ -63,6 +66,18 @@ async fn build_world() -> (Arc<dyn ObjectStore>, Arc<LocalMetadataClient>) {
         put_chunk(&mem, local.as_ref(), &format!("t/data/hour{h}.parquet"), &rows, false).await;
     }
     (mem, local)
+}
+
+async fn new_node_with(mem: &Arc<dyn ObjectStore>, meta: Arc<dyn MetadataClient>, adaptive: bool) -> QueryNode {
+    let n = new_node(mem, meta).await;
+    if !adaptive {
+        return n;
+    }
+    let ctl = Arc::new(cardinalsin::adaptive_index::AdaptiveIndexController::new(cardinalsin::adaptive_index::AdaptiveIndexConfig::default()));
+    for col in ["host", "timestamp"] {
+        let _ = ctl.lifecycle_manager.create_invisible_index("default".to_string(), col.to_string(), cardinalsin::adaptive_index::IndexType::Inverted).await;
+    }
+    n.with_adaptive_indexing(ctl)
 }
 
 async fn new_node(mem: &Arc<dyn ObjectStore>, meta: Arc<dyn MetadataClient>) -> QueryNode {
@@ -121,7 +136,7 @@ impl Scenario for C10Scenario {
         let gating = Arc::new(std::sync::atomic::AtomicBool::new(false));
         let g2 = gating.clone();
         let gm: Arc<dyn MetadataClient> = GatedMeta::with_filter(local.clone(), "Q", ctl, move |_| g2.load(std::sync::atomic::Ordering::SeqCst));
-        let node = Arc::new(new_node(&mem, gm.clone()).await);
+        let node = Arc::new(new_node_with(&mem, gm.clone(), self.p.adaptive).await);
         for w in &self.p.warm {
             let r = run_query(&node, gm.clone(), w).await;
             self.results.lock().unwrap().insert(w.name.clone(), r);
@@ -187,7 +202,7 @@ fn expected_for(p: &Params) -> BTreeMap<String, Result<Vec<String>, String>> {
             for q in p.warm.iter().chain(p.queries.iter()) {
                 let (mem, local) = build_world().await;
                 let meta: Arc<dyn MetadataClient> = local.clone();
-                let node = new_node(&mem, meta.clone()).await;
+                let node = new_node_with(&mem, meta.clone(), p.adaptive).await;
                 m.insert(q.name.clone(), run_query(&node, meta, q).await);
             }
             m
@@ -212,7 +227,7 @@ fn q(name: &str, hours_ago: i64, select: &str, tenant: &str, streaming: bool) ->
 pub fn plans(tier: &str) -> Vec<(Params, Cost)> {
     let all = Cost { preempt: 1000, ..Cost::ZERO };
     let sel = "value_f64, host";
-    let p = |name: &str, warm: Vec<QuerySpec>, queries: Vec<QuerySpec>| Params { name: name.into(), queries, warm };
+    let p = |name: &str, warm: Vec<QuerySpec>, queries: Vec<QuerySpec>| Params { name: name.into(), queries, warm, adaptive: false };
     let mut v = vec![
         (p("two queries, disjoint windows", vec![], vec![q("Q1", 1, sel, "default", false), q("Q2", 2, sel, "default", false)]), all),
         (p("query + aggregate, disjoint windows", vec![], vec![q("Q1", 1, "count(*), min(value_f64)", "default", false), q("Q2", 3, "value_f64", "default", false)]), all),
@@ -226,6 +241,9 @@ pub fn plans(tier: &str) -> Vec<(Params, Cost)> {
         (p("warm node (A served), then empty selection vs A again", vec![q("A1", 1, sel, "default", false)], vec![q("E", 7, "count(*)", "default", false), q("A2", 1, "host", "default", false)]), all),
         (p("three queries, the third repeats the first", vec![], vec![q("Q1", 1, sel, "default", false), q("Q2", 2, sel, "default", false), q("Q1b", 1, "host", "default", false)]), Cost { preempt: if tier == "thorough" { 4 } else { 3 }, ..Cost::ZERO }),
     ];
+    // the same races on a node with adaptive indexing enabled (execution goes through execute_plan_with_indexes)
+    v.push((Params { adaptive: true, ..p("adaptive indexing: two queries, disjoint windows", vec![], vec![q("Q1", 1, "count(*)", "default", false), q("Q2", 2, sel, "default", false)]) }, all));
+    v.push((Params { adaptive: true, ..p("adaptive indexing: warm node (A served), then B vs A again, two tenants", vec![q("A1", 1, sel, "default", false)], vec![q("B", 2, sel, "tenant-b", false), q("A2", 1, "host, value_f64", "default", false)]) }, all));
     if tier == "thorough" {
         v.push((p("three queries, two tenants", vec![], vec![q("Q1", 1, sel, "default", false), q("Q2", 2, sel, "default", false), q("Q3", 3, "value_f64", "tenant-b", false)]), Cost { preempt: 4, ..Cost::ZERO }));
         v.push((p("two streaming subscriptions", vec![], vec![q("S1", 1, sel, "default", true), q("S2", 2, sel, "default", true)]), all));
